@@ -10,6 +10,7 @@ The same source text is executed by `AstEval.parse()+eval()` and by `exec(compil
 stdin JSON {"cases":[{"src","init":{name: literal source},"mode":"native"|"seeded","seed":int}]} -> 'RESULT <json>'.
 """
 import asyncio
+import dis
 import json
 import operator
 import random
@@ -223,11 +224,25 @@ class Rec:
             raise TypeError("unhashable payload")
         return self._id * 7919 + 13
 
+    def _conv(self, tag, fn, text):
+        # pyscript's call_func builds a debug string from every positional argument (str(arg)): not part of the program
+        # nor are the strings CPython builds for error messages: only conversions asked for by the program's own code
+        # (CPython: the frame of the generated source; pyscript: an ast_* evaluator) are logged
+        frame = sys._getframe(2)  # pylint: disable=protected-access
+        code = frame.f_code
+        if code.co_filename == "<c01>":
+            # CPython: only when the instruction being executed is the f-string conversion itself
+            if dis.opname[code.co_code[frame.f_lasti]] not in ("FORMAT_VALUE", "CONVERT_VALUE", "FORMAT_SIMPLE", "FORMAT_WITH_SPEC"):
+                return text
+        elif code.co_name not in ("ast_formattedvalue", "ast_joinedstr"):
+            return text
+        return self._do(f"conv:{tag}", [self], lambda r, seeded: text if seeded else fn(self._payload), wrap=False)
+
     def __str__(self):
-        return f"<S{self._id}>"
+        return self._conv("s", str, f"<S{self._id}>")
 
     def __repr__(self):
-        return f"<R{self._id}>"
+        return self._conv("r", repr, f"<R{self._id}>")
 
     # ---- logged protocol -----------------------------------------------------------------------------
     def __bool__(self):
